@@ -26,6 +26,8 @@ structure MovedToRemote (ip : IpOracle) (o : Opts) (h : Bytes) (u' : Bytes) (o' 
   destination : hostnameOf o'.hostinfo = if ip4Looking h then some h else ip.norm6 (unbracket h)
   /-- from here on nothing moves any more -/
   settles : ∃ u'', NormalForm ip o' u'' o'
+  /-- `u'` consists of the characters RFC 3986 allows in a URI -/
+  uriText : ∀ c ∈ u', isUriChar c = true
 
 -- small facts ------------------------------------------------------------------------------
 
@@ -119,6 +121,14 @@ theorem Ip6In.clean {ip : IpOracle} (laws : IpLaws ip) {x y : Bytes} (h : Ip6In 
   · have := unreserved_facts (zoneOk_iff.mp h.zone c h1)
     omega
 
+theorem Ip6In.uriChars {ip : IpOracle} (laws : IpLaws ip) {x y : Bytes} (h : Ip6In ip x y) :
+    ∀ c ∈ x, isUriChar c = true := by
+  intro c hc
+  rcases mem_cases_pct hc with h1 | h1 | h1
+  · exact uriChar_of_addrChar (laws.addrIn x y h.norm c h1)
+  · subst h1; decide
+  · exact uriChar_of_unreserved (zoneOk_iff.mp h.zone c h1)
+
 theorem Ip6In.out {ip : IpOracle} (laws : IpLaws ip) {x y : Bytes} (h : Ip6In ip x y) :
     Ip6Text ip y := by
   obtain ⟨hfix, hcol, hlow, hnv, _⟩ := laws.canon x y h.norm
@@ -152,8 +162,19 @@ theorem netlocFactsTo_ip6 {ip : IpOracle} (laws : IpLaws ip) {x y : Bytes} (h : 
   have hlow : lowerUntilPct x = x := lowerUntilPct_id h.lower
   have hshape := bracket_shape (t := x) port
   have hrh := rawHostname_bracket port h64 h93
+  have huri : ∀ c ∈ plainJoin ([91] ++ x ++ [93]) port, isUriChar c = true := by
+    intro c hm
+    rcases mem_plainJoin hm with h1 | h1 | h1
+    · simp only [List.cons_append, List.nil_append, List.mem_cons,
+        List.mem_append, List.not_mem_nil, or_false] at h1
+      rcases h1 with rfl | h1 | rfl
+      · decide
+      · exact h.uriChars laws c h1
+      · decide
+    · subst h1; decide
+    · exact uriChar_of_digit h1
   refine
-    { clean := ?_, brackets := ?_, hostname := ?_,
+    { clean := ?_, uriChars := huri, brackets := ?_, hostname := ?_,
       userinfo := hasUserinfo_bracket port h64, literal := literalOk_bracket port h91 h93 h.zone,
       port := ⟨port, portOf_bracket port h64 h93 hp⟩,
       undecided := ?_ }
@@ -286,7 +307,8 @@ theorem movedToRemote_of_accepted {ip : IpOracle} (laws : IpLaws ip) {u : Bytes}
       unfold getRequestUri; rw [hcn]; simp [hne]
     have hset := setRequestUri_render (ip := ip) hsch hfacts hp hq
     have hsettle := normalForm_literal (o := o') hsch rfl rfl hfacts hp hq
-    refine ⟨_, o', hget, hset, rfl, rfl, ?_, rfl, rfl, ?_, ?_, ?_⟩
+    refine ⟨_, o', hget, hset, rfl, rfl, ?_, rfl, rfl, ?_, ?_, ?_,
+      render_uriChars hsch hfacts.uriChars hp hq⟩
     · rw [A.uriPort]
     · show portOf (plainJoin h port) = portOf o.hostinfo
       rw [hpo]
@@ -354,7 +376,8 @@ theorem movedToRemote_of_accepted {ip : IpOracle} (laws : IpLaws ip) {u : Bytes}
     have hsettle := normalForm_literal (o := o') hsch rfl rfl hfacts' hp hq
     have h64y : 64 ∉ y := fun hm => (hyt.clean 64 hm).2.2.1 rfl
     have h93y : 93 ∉ y := fun hm => (hyt.clean 93 hm).2.1 rfl
-    refine ⟨_, o', hget, hset, rfl, rfl, ?_, rfl, rfl, ?_, ?_, ?_⟩
+    refine ⟨_, o', hget, hset, rfl, rfl, ?_, rfl, rfl, ?_, ?_, ?_,
+      render_uriChars hsch hfacts.uriChars hp hq⟩
     · rw [A.uriPort]
     · show portOf (plainJoin ([91] ++ y ++ [93]) port) = portOf o.hostinfo
       rw [hpo]
